@@ -45,6 +45,17 @@ inline void onVerdict(vsched::Verdict v, const char* detail) {
   std::string m = std::string("I step-bound\nD ") + detail + "\n"; childWrite(m); _exit(2);
 }
 
+// Ends the child from inside the body although other logical threads still exist (e.g. the workers of a pool that this build of
+// the harness cannot tear down): reports the statistics and success, skips the leak check.
+[[noreturn]] inline void finishNow() {
+  pbt::g_ledger.on = 0;
+  if (void* bad = pbt::g_ledger.damaged()) { char d[96]; snprintf(d, sizeof d, "freed block %p was written after its release", bad); childFail("write-after-free", d); }
+  const vsched::Stats& st = vsched::stats();
+  char b[256]; snprintf(b, sizeof b, "S %ld %ld %ld %ld %ld %ld %ld %ld\nO\n", st.decisions, st.switches, st.spurious, st.timeoutsFired, st.eintr, st.maxThreads, st.preemptions, st.interleavedShared);
+  childWrite((g_childLabels ? *g_childLabels : std::string()) + b);
+  _exit(0);
+}
+
 // body runs as logical thread 0 under the scheduler; check() runs afterwards (single threaded, still in the child)
 inline Result runForked(const vsched::Config& cfg, const std::function<void()>& body, const std::function<void()>& check, int timeoutMs = 8000) {
   Result r;
